@@ -242,20 +242,26 @@ def Typ.emitError (t : Typ) : Option Str :=
   | .lit [_] => some js!"AttributeError"
   | _ => none
 
-/-- `param2json_schema_property` (when it returns): the property object (keys in a fixed order; key order inside a
-    property is not compared) and whether the name is appended to `required`. -/
+/-- the default the emitter writes: `del _param["default"]` for a member of `none_types` -/
+def emittedDefault (p : Param) : Option J := p.default.bind (fun d => if d.isNone then none else some d.toJ)
+
+/-- the key/value list of an emitted property, by its four optional parts (keys in a fixed order; key order inside a
+    property is not compared).  `if _param.get("doc")`: a truthy doc is renamed `description`, an empty one stays `doc`. -/
+def dfltKvs : Option J → List (Str × J)
+  | some d => [(js!"default", d)]
+  | none => []
+def docKvs : Option Str → List (Str × J)
+  | some d => if d.isEmpty then [(js!"doc", .str d)] else [(js!"description", .str d)]
+  | none => []
+def patKvs : Option Str → List (Str × J)
+  | some s => [(js!"pattern", .str s)]
+  | none => []
+def propKvs (dflt : Option J) (doc : Option Str) (ty : Str) (pat : Option Str) : List (Str × J) :=
+  dfltKvs dflt ++ docKvs doc ++ [(js!"type", .str ty)] ++ patKvs pat
+
+/-- `param2json_schema_property` (when it returns): the property object and whether the name is appended to `required`. -/
 def emitProp (p : Param) : J × Bool :=
-  let (ty, pat) := emitType p.typ
-  let dflt : List (Str × J) := match p.default with
-    | some d => if d.isNone then [] else [(js!"default", d.toJ)]
-    | none => []
-  let doc : List (Str × J) := match p.doc with
-    | some d => if d.isEmpty then [(js!"doc", .str d)] else [(js!"description", .str d)]   -- `if _param.get("doc")`
-    | none => []
-  let pattern : List (Str × J) := match pat with
-    | some s => [(js!"pattern", .str s)]
-    | none => []
-  (.obj (dflt ++ doc ++ [(js!"type", .str ty)] ++ pattern), !p.typ.optional)
+  (.obj (propKvs (emittedDefault p) p.doc (emitType p.typ).1 (emitType p.typ).2), !p.typ.optional)
 
 /-- the return entry as the ReST emitter writes it (`:return: doc` only for a truthy doc; no word-wrap: domain) -/
 def retText (r : Ret) : Str :=
@@ -338,6 +344,53 @@ structure PParam where
 def consumed : List Str := [js!"description", js!"doc", js!"type", js!"pattern", js!"default"]
 def outOfFragment : List Str := [js!"anyOf", js!"$ref", js!"nullable", js!"typ"]
 
+/-- `if "description" in _param: _param["doc"] = _param.pop("description")` (an existing `doc` key stays otherwise) -/
+def pickDoc (kvs : List (Str × J)) : Option J :=
+  match lookup js!"description" kvs with
+  | some d => some d
+  | none => lookup js!"doc" kvs
+
+/-- `if _param.get("type"): _param["typ"] = json_type2typ[_param.pop("type")]`; second component: a falsy `type`
+    is neither used nor popped -/
+def typeStep (typ0 : Option Str) (t : Option J) : Except Str (Option Str × List (Str × J)) :=
+  match t with
+  | some t =>
+    if t.truthy then
+      match t with
+      | .str s => match lookup s jsonType2typ with
+        | some r => .ok (some r, [])
+        | none => .error js!"KeyError"
+      | _ => .error js!"KeyError"         -- KeyError / TypeError (unhashable): only ok-vs-raises is compared
+    else .ok (typ0, [(js!"type", t)])
+  | none => .ok (typ0, [])
+
+/-- `"Literal[{}]".format(", ".join(map("'{}'".format, maybe_enum)))` -/
+def literalOf (ms : List Str) : Str := js!"Literal[" ++ join js!", " (ms.map quote) ++ js!"]"
+
+/-- `if _param.get("pattern"): maybe_enum = pattern.split("|"); if all(filter(str.isalpha, maybe_enum)): typ = Literal[…]; del pattern` -/
+def patternStep (typ1 : Option Str) (p : Option J) : Except Str (Option Str × List (Str × J)) :=
+  match p with
+  | some p =>
+    if p.truthy then
+      match p with
+      | .str s =>
+        if maybeEnumOk (splitBar s) then .ok (some (literalOf (splitBar s)), [])
+        else .ok (typ1, [(js!"pattern", p)])
+      | _ => .error js!"AttributeError"
+    else .ok (typ1, [(js!"pattern", p)])
+  | none => .ok (typ1, [])
+
+/-- `if name not in required and _param.get("typ") and "Optional[" not in _param["typ"] (or _param.pop("nullable", False)):
+    typ = "Optional[{}]".format(typ)` -/
+def wrapOpt (required : List Str) (name t : Str) : Str :=
+  if !required.contains name && !t.isEmpty && !Py.contains t js!"Optional[" then js!"Optional[" ++ t ++ js!"]" else t
+
+/-- `if _param.get("default", False) in none_types: _param["default"] = NoneStr` -/
+def normDefaultJ : J → J
+  | .null => if noneInNoneTypes then .str noneStr else .null
+  | .str s => if noneTypeStrs.contains s then .str noneStr else .str s
+  | d => d
+
 /-- `json_schema_property_to_param((name, _param), required)` -/
 def parseProp (required : List Str) (name : Str) (v : J) : Except Str PParam :=
   match v with
@@ -345,50 +398,14 @@ def parseProp (required : List Str) (name : Str) (v : J) : Except Str PParam :=
     if outOfFragment.any (fun k => hasKey k kvs) then .error js!"out-of-fragment" else
     -- if name.endswith("kwargs"): typ = "Optional[dict]"
     let typ0 : Option Str := if endsWith name js!"kwargs" then some js!"Optional[dict]" else none
-    -- if "description" in _param: doc = pop("description")
-    let doc : Option J := match lookup js!"description" kvs with
-      | some d => some d
-      | none => lookup js!"doc" kvs
-    -- if _param.get("type"): typ = json_type2typ[pop("type")]
-    let typ1 : Except Str (Option Str × List (Str × J)) := match lookup js!"type" kvs with
-      | some t =>
-        if t.truthy then
-          match t with
-          | .str s => match lookup s jsonType2typ with
-            | some r => .ok (some r, [])
-            | none => .error js!"KeyError"
-          | _ => .error js!"KeyError"
-        else .ok (typ0, [(js!"type", t)])      -- a falsy `type` is neither used nor popped
-      | none => .ok (typ0, [])
-    match typ1 with
+    match typeStep typ0 (lookup js!"type" kvs) with
     | .error e => .error e
     | .ok (typ1, keptType) =>
-    -- if _param.get("pattern"): … Literal[…]
-    let typ2 : Except Str (Option Str × List (Str × J)) := match lookup js!"pattern" kvs with
-      | some p =>
-        if p.truthy then
-          match p with
-          | .str s =>
-            let ms := splitBar s
-            if maybeEnumOk ms then .ok (some (js!"Literal[" ++ join js!", " (ms.map quote) ++ js!"]"), [])
-            else .ok (typ1, [(js!"pattern", p)])
-          | _ => .error js!"AttributeError"
-        else .ok (typ1, [(js!"pattern", p)])
-      | none => .ok (typ1, [])
-    match typ2 with
+    match patternStep typ1 (lookup js!"pattern" kvs) with
     | .error e => .error e
     | .ok (typ2, keptPattern) =>
-    -- if name not in required and _param.get("typ") and "Optional[" not in _param["typ"] (or pop("nullable", False))
-    let typ3 : Option Str := match typ2 with
-      | some t => if !required.contains name && !t.isEmpty && !Py.contains t js!"Optional[" then some (js!"Optional[" ++ t ++ js!"]") else some t
-      | none => none
-    -- if _param.get("default", False) in none_types: default = NoneStr
-    let dflt : Option J := match lookup js!"default" kvs with
-      | some .null => if noneInNoneTypes then some (.str noneStr) else some .null
-      | some (.str s) => if noneTypeStrs.contains s then some (.str noneStr) else some (.str s)
-      | some d => some d
-      | none => none
-    .ok { typ := typ3, doc := doc, default := dflt,
+    .ok { typ := typ2.map (wrapOpt required name), doc := pickDoc kvs,
+          default := (lookup js!"default" kvs).map normDefaultJ,
           extra := keptType ++ keptPattern ++ kvs.filter (fun kv => !consumed.contains kv.1) }
   | _ => .error js!"not-a-dict"
 
@@ -422,16 +439,18 @@ def parseDesc (s : Str) : Str × Option PRet :=
    else some { typ := (findLine js!":rtype: ```" retLines).map (fun t => t.takeWhile (· ≠ '`')),
                doc := findLine js!":return: " retLines })
 
-/-- `frozenset(schema["required"]) if schema.get("required") else frozenset()` -/
+def J.isNested : J → Bool | .arr _ => true | .obj _ => true | _ => false
+def J.str? : J → Option Str | .str s => some s | _ => none
+
+/-- `frozenset(schema["required"]) if schema.get("required") else frozenset()` (members that are not strings can
+    never equal a parameter name; unhashable members raise) -/
 def requiredSet (j : Option J) : Except Str (List Str) :=
   match j with
   | none => .ok []
   | some r =>
     if !r.truthy then .ok [] else
     match r with
-    | .arr xs =>
-      if xs.any (fun x => match x with | .arr _ => true | .obj _ => true | _ => false) then .error js!"TypeError"
-      else .ok (xs.filterMap (fun x => match x with | .str s => some s | _ => none))
+    | .arr xs => if xs.any J.isNested then .error js!"TypeError" else .ok (xs.filterMap J.str?)
     | .str s => .ok (s.map (fun c => [c]))
     | .obj kvs => .ok (kvs.map (·.1))
     | _ => .error js!"TypeError"
@@ -508,6 +527,18 @@ def patternOk : J → Bool
   | .str s => s.all patChar
   | _ => false
 
+/-- the keywords whose value is not itself a (map of) schema(s): `default` and keywords unknown to the meta-schema
+    (`doc`, `x_typ`, …) accept anything -/
+def kwCheck (k : Str) (v : J) : Bool :=
+  if k = js!"$id" then idOk v
+  else if k = js!"$schema" then v.isStr
+  else if k = js!"description" then v.isStr
+  else if k = js!"type" then typeOk v
+  else if k = js!"required" then (match v with | .arr xs => uniqueStrs xs | _ => false)
+  else if k = js!"pattern" then patternOk v
+  else if k = js!"format" then v.isStr
+  else true
+
 mutual
 /-- the decidable fragment: `validSchema j = true` ⇒ `check_schema(j)` passes; on the mutants the harness builds the
     two agree in both directions -/
@@ -517,17 +548,11 @@ def validSchema : J → Bool
   | _ => false
 def validKvs : List (Str × J) → Bool
   | [] => true
-  | (k, v) :: rest =>
-    (if k = js!"$id" then idOk v
-     else if k = js!"$schema" then v.isStr
-     else if k = js!"description" then v.isStr
-     else if k = js!"type" then typeOk v
-     else if k = js!"properties" then (match v with | .obj ps => validProps ps | _ => false)
-     else if k = js!"required" then (match v with | .arr xs => uniqueStrs xs | _ => false)
-     else if k = js!"pattern" then patternOk v
-     else if k = js!"format" then v.isStr
-     else true)                  -- `default`: anything; keywords unknown to the meta-schema (`doc`, `x_typ`): anything
-    && validKvs rest
+  | (k, v) :: rest => validKw k v && validKvs rest
+/-- one keyword: `properties` must be an object whose values are schemas -/
+def validKw (k : Str) : J → Bool
+  | .obj ps => if k = js!"properties" then validProps ps else kwCheck k (.obj ps)
+  | v => if k = js!"properties" then false else kwCheck k v
 def validProps : List (Str × J) → Bool
   | [] => true
   | (_, v) :: rest => validSchema v && validProps rest
